@@ -720,6 +720,8 @@ impl<'a> Cur<'a> {
             if allowed & kind == 0 {
                 return Err(Malformed::MisplacedProperty(id));
             }
+            // (the Subscription Identifier may repeat in a PUBLISH only: a SUBSCRIBE carries at most one)
+            let repeat = repeat && !(id == 11 && kind == K_SUBSCRIBE);
             if !repeat && out.iter().any(|(i, _)| *i == id) {
                 return Err(Malformed::DuplicateProperty(id));
             }
